@@ -225,8 +225,10 @@ pub fn string_table(src: &str) -> Vec<Value> {
             }
             let text = t.text(src);
             let d = decode::decode_token(text).unwrap_or_default();
-            let ndq = d.iter().filter(|c| **c == b'"').count();
-            let nsq = d.iter().filter(|c| **c == b'\'').count();
+            // quote characters in the RAW body (escaped or not): what needs an escape under each quote
+            let body: &[u8] = if quote == b'[' { &[] } else { &text.as_bytes()[1..text.len().saturating_sub(1).max(1)] };
+            let ndq = body.iter().filter(|c| **c == b'"').count();
+            let nsq = body.iter().filter(|c| **c == b'\'').count();
             out.push(json!({
                 "q": (quote as char).to_string(), "level": level, "ndq": ndq, "nsq": nsq,
                 "val": decode::hex(&d), "start": t.start, "end": t.end,
